@@ -1,6 +1,7 @@
 use crate::prop::Prop;
 pub mod c01;
 pub mod c02;
+pub mod c03;
 pub mod c04;
 pub mod c05;
 pub mod c06;
@@ -22,6 +23,7 @@ pub fn lookup(id: &str) -> Option<&'static dyn Prop> {
     Some(match id {
         "C01" => &c01::C01,
         "C02" => &c02::C02,
+        "C03" => &c03::C03,
         "C04" => &c04::C04,
         "C05" => &c05::C05,
         "C06" => &c06::C06,
